@@ -26,8 +26,10 @@ R1  stale-flag discipline (T-ORDER): every normal path through `add` to a
     call closure stores into it.  In
     get_flight / sync / close every use of the index (reads of the index
     variables or of an attribute holding a copy of them, dataset sync/close,
-    dropping the index group) is dominated by the lazy `_reindex()`;
-    `_reindex` clears the flag only after both index variables were stored.
+    dropping the index group) is dominated by the lazy `_reindex()` (its guard read as what it tests: `bool(x)` is x,
+    `self.<p>` with p a read-only property of one `return <expression>` is that expression);
+    `_reindex` clears the flag only after both index variables were stored (a clear that is also reached around the
+    branch that writes them is reported with the condition of that branch).
 R2  sorted-writer <-> bisect-reader agreement, decided on values, not on
     spelling.  Writers (`_reindex`, the merged-index builder): first by
     bounded interpretation (`sa.rules.c09.TruthTable`, an abstract interpreter
@@ -143,6 +145,26 @@ R7  what `add` knows about the stored table.  An attribute of the store whose
     `self.mode`).  Otherwise a store reopened for appending judges its first
     addition against the constructor's value.  Zero-expected on today's code
     (add consults nothing of the kind); positive control embedded.
+R8  the table a writer stores is made of what this call collected.  A class of the module whose methods put something
+    of the instance into the index variables (backward slice on names from the stored values, through the functions of
+    the module the state is handed to) keeps that state per instance: a container made once in the class body
+    (`ids: list[int] = []`, `list()`, a comprehension, deque / defaultdict ...) that a method grows in place through
+    `self` (`+=`, append / extend / ..., a subscript store) and that no constructor replaces by a container of the
+    instance (`self.ids = ...` at the top level of __init__ / __post_init__; a @dataclass refuses such defaults itself)
+    is one object for every instance of the process, so the second table written also holds the entries of the first and
+    a look-up finds identifiers that were never added to that store.  `self.n += 1` on a number rebinds the name on the
+    instance and is not of this kind.  Zero-expected on today's code; positive control embedded.
+
+Helper objects (`dissolve_local_objects`, applied to the functions of the module before R1-R7 read them): a local bound
+    once to a new instance of a small class of the module (plain class or @dataclass: data attributes and plain methods
+    only, no bases) that is used only through its attributes and methods and never leaves the function is the set of
+    its attributes kept in locals - the methods spliced in at their calls (the engine's helper inliner with the receiver
+    for `self`: guard clauses, results, nested calls), the constructor at the instantiation (class-level defaults, then
+    __init__ / the generated initialiser of a dataclass with its default factories, then __post_init__), `v.attr` read
+    as the local `v__attr`.  An accumulating loop whose running state moved into a builder object is the loop again, and
+    the interpretation and the provenance rules decide it as before.  Nothing is done when any use of the object is of
+    another kind (passed on, returned, captured, `with`, `len(v)`...) or when the instances would share a container of
+    the class body (R8 reports on that).
 """
 
 from __future__ import annotations
@@ -164,8 +186,28 @@ def _normal(a, b, lab):
     return lab != 'e'
 
 
-def _guard_atoms(test: ast.expr) -> set[str]:
-    return {('' if pol else 'not ') + norm(e) for e, pol in conjuncts(test, True)}
+def _guard_atoms(test: ast.expr, cls=None) -> set[str]:
+    return {('' if pol else 'not ') + norm(e) for e, pol in conjuncts(_open_test(test, cls), True)}
+
+
+def _open_test(e: ast.expr, cls=None, depth: int = 0) -> ast.expr:
+    """a test as what it tests: `bool(x)` in a truth position is x; `self.<p>` with p a read-only property of the class
+    whose body is one `return <expression>` is that expression (the receiver is the same object)"""
+    if depth > 4:
+        return e
+    if isinstance(e, ast.Call) and isinstance(e.func, ast.Name) and e.func.id == 'bool' and len(e.args) == 1 and not e.keywords:
+        return _open_test(e.args[0], cls, depth + 1)
+    if isinstance(e, ast.BoolOp):
+        return ast.copy_location(ast.BoolOp(op=e.op, values=[_open_test(v, cls, depth + 1) for v in e.values]), e)
+    if isinstance(e, ast.UnaryOp) and isinstance(e.op, ast.Not):
+        return ast.copy_location(ast.UnaryOp(op=e.op, operand=_open_test(e.operand, cls, depth + 1)), e)
+    if cls is not None and isinstance(e, ast.Attribute) and isinstance(e.value, ast.Name) and e.value.id == 'self':
+        fi = cls.find_method(e.attr)
+        if fi is not None and [norm(d) for d in fi.node.decorator_list] == ['property'] and fi.params == ['self']:
+            body = [s_ for s_ in fi.node.body if not (isinstance(s_, ast.Expr) and isinstance(s_.value, ast.Constant))]
+            if len(body) == 1 and isinstance(body[0], ast.Return) and body[0].value is not None:
+                return _open_test(body[0].value, cls, depth + 1)
+    return e
 
 
 def rule_stale(ctx, m):
@@ -405,7 +447,7 @@ def rule_stale(ctx, m):
             for t, pol, _ in gs:
                 if not pol:
                     bad_pol = True
-                atoms |= _guard_atoms(t)
+                atoms |= _guard_atoms(t, m.cls('TrajectoryStore'))
             extra = atoms - ALLOWED_GUARD_ATOMS
             ok = not extra and not bad_pol
             ctx.ob('C08-R1', fi, f'lazy reindex guard {sorted(atoms)}', ok,
@@ -462,9 +504,19 @@ def rule_stale(ctx, m):
     for c in clr:
         ok = all(v.id in dom[c.id] for v in var_stores) and isinstance(c.stmt.value, ast.Constant) \
             and c.stmt.value.value is False
+        why = 'the flag is cleared before the index is complete'
+        if not ok and isinstance(c.stmt.value, ast.Constant) and c.stmt.value.value is False:
+            # say which way round: a path that reaches the clear without writing the table
+            skipped = [v for v in var_stores if v.id not in dom[c.id]]
+            own_guards = {id(t) for t, _, _ in guards_of(c.stmt, ri.node)}
+            cond = next((('' if pol else 'not ') + norm(t) for v in skipped for t, pol, _ in guards_of(v.stmt, ri.node)
+                         if id(t) not in own_guards), None)
+            if cond is not None:
+                why = (f'the index variables are written only when `{cond[:60]}`, but this statement is also reached when that does '
+                       'not hold: the flag then says the index is fresh although nothing was written (a later look-up / sync / '
+                       'save trusts a table that was never made)')
         ctx.ob('C08-R1', ri, 'flag cleared only after both index variables are stored', ok,
-               'both stores dominate the clear' if ok else 'the flag is cleared before the index is complete',
-               line=c.line)
+               'both stores dominate the clear' if ok else why, line=c.line)
     if not clr:
         ctx.ob('C08-R1', ri, 'flag cleared', False, '_reindex never clears index_stale')
 
@@ -2814,8 +2866,560 @@ def rule_linked(ctx, m, rule='C08-R5', entries=None):
     ctx.stats[f'{rule}.attaching_methods'] = sorted(attach)
 
 
+# ---------------------------------------------------------------------------
+# helper objects holding the state of a writer
+# ---------------------------------------------------------------------------
+
+_IMMUTABLE_CALLS = ('tuple', 'frozenset', 'int', 'float', 'str', 'bool', 'bytes', 'range')
+
+
+def _immutable_literal(e) -> bool:
+    if e is None or isinstance(e, ast.Constant):
+        return True
+    if isinstance(e, ast.UnaryOp):
+        return _immutable_literal(e.operand)
+    if isinstance(e, ast.Tuple):
+        return all(_immutable_literal(x) for x in e.elts)
+    if isinstance(e, ast.BinOp):
+        return _immutable_literal(e.left) and _immutable_literal(e.right)
+    return False
+
+
+def _mutable_container(e) -> bool:
+    """an expression that makes a container that can be grown in place (list / dict / set / deque / defaultdict ...)"""
+    if isinstance(e, (ast.List, ast.Dict, ast.Set, ast.ListComp, ast.DictComp, ast.SetComp)):
+        return True
+    if isinstance(e, ast.Call):
+        n = call_name(e).rsplit('.', 1)[-1]
+        return n in ('list', 'dict', 'set', 'deque', 'defaultdict', 'OrderedDict', 'Counter', 'bytearray')
+    return False
+
+
+def _is_dataclass_decorator(d) -> bool:
+    f = d.func if isinstance(d, ast.Call) else d
+    return (dotted_name(f) or '').rsplit('.', 1)[-1] == 'dataclass'
+
+
+def _class_layout(cnode: ast.ClassDef):
+    """(data attributes of the class body {name: value | None} in order, plain methods {name: def}, is a dataclass);
+    None when the class has anything else (bases, other decorators, properties, nested classes, __slots__ ...)"""
+    if cnode.keywords or any(norm(b) != 'object' for b in cnode.bases):
+        return None
+    dc = False
+    for d in cnode.decorator_list:
+        if not _is_dataclass_decorator(d):
+            return None
+        if isinstance(d, ast.Call) and any(not isinstance(k.value, ast.Constant) or (k.arg == 'init' and not k.value.value)
+                                           for k in d.keywords):
+            return None
+        dc = True
+    data: dict = {}
+    meths: dict = {}
+    props: set = set()
+    for i, s in enumerate(cnode.body):
+        if isinstance(s, ast.Expr) and isinstance(s.value, ast.Constant) or isinstance(s, ast.Pass):
+            continue
+        if isinstance(s, ast.AnnAssign) and isinstance(s.target, ast.Name):
+            if 'ClassVar' in norm(s.annotation):
+                return None
+            data[s.target.id] = s.value
+        elif isinstance(s, ast.Assign) and len(s.targets) == 1 and isinstance(s.targets[0], ast.Name):
+            if s.targets[0].id.startswith('__'):
+                return None
+            data[s.targets[0].id] = s.value
+        elif isinstance(s, ast.FunctionDef):
+            if len(s.decorator_list) == 1 and norm(s.decorator_list[0]) == 'property' and len(s.args.args) == 1 \
+                    and s.name not in meths:
+                props.add(s.name)                # a read-only property: a method called at every read
+            elif s.decorator_list or s.name in meths or not s.args.args:
+                return None
+            if s.name in ('__new__', '__del__', '__getattr__', '__getattribute__', '__setattr__', '__delattr__',
+                          '__init_subclass__', '__set_name__', '__class_getitem__'):
+                return None                      # (other special methods act only on uses of the object as a whole,
+                #                                   and such a use keeps the object as it is)
+            meths[s.name] = s
+        else:
+            return None
+    if dc and '__init__' in meths or set(data) & set(meths):
+        return None
+    for f in meths.values():
+        if f.name in props:
+            f._c08_property = True
+    return data, meths, dc
+
+
+def _instance_rebinds(meths: dict) -> set[str]:
+    """attributes that the constructor binds on the instance, unconditionally, before anything else can touch them:
+    `self.a = ...` as a top-level statement of __init__ / __post_init__"""
+    out = set()
+    for name in ('__init__', '__post_init__'):
+        fn = meths.get(name)
+        if fn is None:
+            continue
+        me = fn.args.args[0].arg
+        for s in fn.body:
+            tg = s.targets if isinstance(s, ast.Assign) else [s.target] if isinstance(s, ast.AnnAssign) and s.value is not None else []
+            for t in tg:
+                for x in (t.elts if isinstance(t, (ast.Tuple, ast.List)) else [t]):
+                    if isinstance(x, ast.Attribute) and isinstance(x.value, ast.Name) and x.value.id == me:
+                        out.add(x.attr)
+    return out
+
+
+def shared_state_mutations(cnode: ast.ClassDef):
+    """[(attribute, the class-level statement, the mutating node, method)]: containers made once, in the class body,
+    that methods grow in place through the instance (`self.a += [..]`, `self.a.append(..)`, `self.a[k] = ..`) and that
+    no constructor replaces by a container of the instance: every instance of the class works on the same object, so
+    what one of them collects is still there for the next.  (`self.n += 1` on a number rebinds the name on the
+    instance and is not of this kind; a @dataclass refuses such defaults when the class is made.)"""
+    if any(_is_dataclass_decorator(d) for d in cnode.decorator_list):
+        return []
+    shared = {}
+    for s in cnode.body:
+        if isinstance(s, ast.AnnAssign) and isinstance(s.target, ast.Name) and s.value is not None and _mutable_container(s.value):
+            shared[s.target.id] = s
+        elif isinstance(s, ast.Assign) and _mutable_container(s.value):
+            for t in s.targets:
+                if isinstance(t, ast.Name):
+                    shared[t.id] = s
+    meths = {s.name: s for s in cnode.body if isinstance(s, ast.FunctionDef) and s.args.args
+             and not any(norm(d) in ('staticmethod', 'classmethod') for d in s.decorator_list)}
+    for a in _instance_rebinds(meths):
+        shared.pop(a, None)
+    out = []
+    for fn in meths.values():
+        me = fn.args.args[0].arg
+
+        def is_attr(e, a=None):
+            return (isinstance(e, ast.Attribute) and isinstance(e.value, ast.Name) and e.value.id == me
+                    and e.attr in shared and (a is None or e.attr == a))
+        rebound = set()
+        for x in ast.walk(fn):
+            # a method that first gives the instance a container of its own (`self.a = []` / `self.a = self.a + [..]`)
+            # is not decided here
+            if isinstance(x, (ast.Assign, ast.AnnAssign)):
+                for t in (x.targets if isinstance(x, ast.Assign) else [x.target]):
+                    if is_attr(t):
+                        rebound.add(t.attr)
+        for x in ast.walk(fn):
+            hit = None
+            if isinstance(x, ast.AugAssign) and is_attr(x.target):
+                hit = x.target.attr
+            elif isinstance(x, ast.Call) and isinstance(x.func, ast.Attribute) and x.func.attr in MUTATING_METHODS \
+                    and is_attr(x.func.value):
+                hit = x.func.value.attr
+            elif isinstance(x, ast.Subscript) and isinstance(x.ctx, (ast.Store, ast.Del)) and is_attr(x.value):
+                hit = x.value.attr
+            if hit is not None and hit not in rebound:
+                out.append((hit, shared[hit], x, fn))
+    return out
+
+
+def dissolve_local_objects(prog, m, fi) -> list[str]:
+    """A local of `fi` bound once to a new instance of a small class of the program - plain class or @dataclass, data
+    attributes and plain methods only - that is used only through its attributes and methods and never leaves the
+    function (not passed on, returned, stored or captured) is the set of its attributes kept in locals: the methods are
+    spliced in at their calls (the engine's helper inliner, `prenorm._inline_call`, with the receiver for `self`), the
+    constructor at the instantiation (class-level defaults first, then __init__ / the generated initialiser of a
+    dataclass and __post_init__), and `v.attr` becomes the local `v__attr`.  The function node is rewritten in place
+    and computes the same thing; nothing is done (and the function left as it was) when any use of the object is not
+    of that kind, or when a class-level default is a container that the instance does not replace (the instances would
+    share it: `shared_state_mutations`).  -> names of the dissolved locals"""
+    import copy
+    from ..prenorm import _eligible_helper, _inline_call, _set_lines, _sites
+    done, tried = [], set()
+    own = {k for k, c in m.classes.items() if c.module is m}
+    if not any(isinstance(x, ast.Call) and isinstance(x.func, ast.Name) and x.func.id in own for x in ast.walk(fi.node)):
+        return done
+    for _round in range(4):
+        fn = fi.node
+        cand = None
+        for t, st, how in stores_to(fn):
+            if how not in ('assign', 'ann') or not isinstance(t, ast.Name) or not isinstance(st, (ast.Assign, ast.AnnAssign)):
+                continue
+            v = st.value
+            if not isinstance(v, ast.Call) or (isinstance(st, ast.Assign) and (len(st.targets) != 1 or st.targets[0] is not t)):
+                continue
+            if t.id in tried or len(local_defs(fn, t.id)) != 1 or t.id in fi.params:
+                continue
+            ci = prog.resolve_class_expr(m, v.func)
+            if ci is None or ci.module is not m or any(c.node is ci.node for c in ([fi.cls] if fi.cls else [])):
+                continue
+            lay = _class_layout(ci.node)
+            if lay is None:
+                continue
+            cand = (t.id, st, ci, lay)
+            break
+        if cand is None:
+            break
+        name, st0, ci, (data, meths, dc) = cand
+        tried.add(name)                                     # once, whatever comes of it
+        work = _detached_copy(fn)
+        if _dissolve_one(work, name, ci, data, meths, dc, st0.lineno, _eligible_helper, _inline_call, _set_lines, _sites):
+            fn.body = work.body
+            for n in ast.walk(fn):
+                for ch in ast.iter_child_nodes(n):
+                    if not isinstance(ch, (ast.expr_context, ast.operator, ast.unaryop, ast.cmpop, ast.boolop)):
+                        ch._parent = n
+            done.append(name)
+    return done
+
+
+def _detached_copy(node):
+    """a deep copy of the node alone (the loader's parent links would take the whole module along)"""
+    import copy
+    up = getattr(node, '_parent', None)
+    if up is not None:
+        del node._parent
+    try:
+        return copy.deepcopy(node)
+    finally:
+        if up is not None:
+            node._parent = up
+
+
+def _dissolve_one(fn, name, ci, data, meths, dc, line0, _eligible_helper, _inline_call, _set_lines, _sites) -> bool:
+    import copy
+    rebinds = _instance_rebinds(meths)
+    for a, val in data.items():
+        if val is None or a in rebinds or _immutable_literal(val):
+            continue
+        if dc and isinstance(val, ast.Call) and call_name(val).rsplit('.', 1)[-1] == 'field':
+            continue
+        return False
+    used = {x.id for x in ast.walk(fn) if isinstance(x, ast.Name)} | {a.arg for a in ast.walk(fn) if isinstance(a, ast.arg)}
+    pre = f'{ci.name.strip("_")}__'
+    helpers = {}
+    props: set = set()
+    kwdict: dict = {}
+    for mname, f in meths.items():
+        h = _detached_copy(f)
+        if getattr(f, '_c08_property', False):
+            h.decorator_list = []
+            props.add(mname)
+        if h.args.kwarg is not None and h.args.vararg is None:
+            # `**extra` filled by explicit keywords is a dict display handed to an ordinary (keyword-only) parameter
+            kwdict[mname] = h.args.kwarg.arg
+            h.args.kwonlyargs.append(ast.arg(arg=h.args.kwarg.arg, annotation=None))
+            h.args.kw_defaults.append(None)
+            h.args.kwarg = None
+        h.name = pre + mname.strip('_') + ('_' if mname.startswith('__') else '')
+        me = h.args.args[0].arg
+        hnames = {x.id for x in ast.walk(h) if isinstance(x, ast.Name)} | {a.arg for a in ast.walk(h) if isinstance(a, ast.arg)}
+        if h.name in used or (name in hnames and name != me):
+            return False
+        # the receiver is the object: `self` is the caller's local; annotated attribute declarations are assignments
+        for x in ast.walk(h):
+            if isinstance(x, ast.Name) and x.id == me:
+                x.id = name
+        h.args.args[0].arg = name
+        h.args.args[0].annotation = None
+
+        class _Decl(ast.NodeTransformer):
+            def visit_AnnAssign(self, n):
+                if isinstance(n.target, ast.Attribute) and isinstance(n.target.value, ast.Name) and n.target.value.id == name:
+                    if n.value is None:
+                        return ast.copy_location(ast.Pass(), n)
+                    return ast.copy_location(ast.Assign(targets=[n.target], value=n.value), n)
+                return n
+        _Decl().visit(h)
+        if not _eligible_helper(h):
+            return False
+        helpers[mname] = h
+
+    def find(body_owner):
+        """the instantiation statement: (block, index, statement)"""
+        from ..temps import blocks
+        for _, _, body in blocks(body_owner):
+            for i, s in enumerate(body):
+                if isinstance(s, (ast.Assign, ast.AnnAssign)) and isinstance(s.value, ast.Call) \
+                        and isinstance((s.targets[0] if isinstance(s, ast.Assign) else s.target), ast.Name) \
+                        and (s.targets[0] if isinstance(s, ast.Assign) else s.target).id == name:
+                    return body, i, s
+        return None
+    site = find(fn)
+    if site is None:
+        return False
+    body, idx, st = site
+    call = st.value
+    if any(isinstance(a, ast.Starred) for a in call.args) or any(k.arg is None for k in call.keywords):
+        return False
+    # --- the constructor: class-level defaults, then the initialiser ---------------------------------------------------
+    new = []
+    recv = lambda: ast.Name(id=name, ctx=ast.Load())           # noqa: E731
+
+    def set_attr(a, val):
+        return ast.Assign(targets=[ast.Attribute(value=recv(), attr=a, ctx=ast.Store())], value=val)
+    if dc:
+        fields = [(a, v) for a, v in data.items()]
+        if len(call.args) > len(fields):
+            return False
+        given = {fields[i][0]: a for i, a in enumerate(call.args)}
+        for k in call.keywords:
+            if k.arg in given or k.arg not in data:
+                return False
+            given[k.arg] = k.value
+        # arguments are evaluated in call order, then the fields are set in declaration order
+        tmp = {}
+        for a, e in given.items():
+            if isinstance(e, (ast.Constant, ast.Name)):
+                tmp[a] = e
+            else:
+                tn = f'{name}__{a}__arg'
+                new.append(ast.Assign(targets=[ast.Name(id=tn, ctx=ast.Store())], value=e))
+                tmp[a] = ast.Name(id=tn, ctx=ast.Load())
+        for a, val in fields:
+            if a in given:
+                new.append(set_attr(a, copy.deepcopy(tmp[a])))
+            elif val is None:
+                return False
+            elif isinstance(val, ast.Call) and call_name(val).rsplit('.', 1)[-1] == 'field':
+                fac, dflt = kwarg(val, 'default_factory'), kwarg(val, 'default')
+                if fac is not None and isinstance(fac, (ast.Name, ast.Attribute)):
+                    new.append(set_attr(a, ast.Call(func=copy.deepcopy(fac), args=[], keywords=[])))
+                elif fac is not None and isinstance(fac, ast.Lambda) and not fac.args.args:
+                    new.append(set_attr(a, copy.deepcopy(fac.body)))
+                elif dflt is not None and _immutable_literal(dflt):
+                    new.append(set_attr(a, copy.deepcopy(dflt)))
+                else:
+                    return False
+            else:
+                new.append(set_attr(a, copy.deepcopy(val)))
+        if '__post_init__' in meths:
+            new.append(ast.Expr(value=ast.Call(func=ast.Attribute(value=recv(), attr='__post_init__', ctx=ast.Load()),
+                                               args=[], keywords=[])))
+    else:
+        for a, val in data.items():
+            if val is not None and a not in rebinds:
+                new.append(set_attr(a, copy.deepcopy(val)))
+        if '__init__' in meths:
+            new.append(ast.Expr(value=ast.Call(func=ast.Attribute(value=recv(), attr='__init__', ctx=ast.Load()),
+                                               args=list(call.args), keywords=list(call.keywords))))
+        elif call.args or call.keywords:
+            return False
+    if not new:
+        new = [ast.Pass()]
+    for s in new:
+        ast.fix_missing_locations(s)
+    prev_end = max((getattr(x, 'lineno', 0) for x in ast.walk(body[idx - 1])), default=0) if idx > 0 else 0
+    lo = max(st.lineno - 1, prev_end if prev_end < st.lineno else st.lineno - 1)
+    _set_lines(new, lo, st.lineno)
+    body[idx:idx + 1] = new
+    # --- the methods, at their calls ---------------------------------------------------------------------------------------
+    if props:
+        class _PropReads(ast.NodeTransformer):
+            def visit_Attribute(self, n):
+                self.generic_visit(n)
+                if isinstance(n.value, ast.Name) and n.value.id == name and n.attr in props and isinstance(n.ctx, ast.Load):
+                    return ast.copy_location(ast.Call(func=n, args=[], keywords=[]), n)
+                return n
+        _PropReads().visit(fn)
+        for h in helpers.values():
+            _PropReads().visit(h)
+    for _ in range(200):
+        hit = None
+        for x in ast.walk(fn):
+            if isinstance(x, ast.Call) and isinstance(x.func, ast.Attribute) and isinstance(x.func.value, ast.Name) \
+                    and x.func.value.id == name and x.func.attr in helpers:
+                hit = x
+                break
+        if hit is None:
+            break
+        h = helpers[hit.func.attr]
+        if hit.func.attr in kwdict:
+            named = {a.arg for a in h.args.args + h.args.kwonlyargs} - {kwdict[hit.func.attr]}
+            if any(k.arg is None for k in hit.keywords):
+                return False
+            extra = [k for k in hit.keywords if k.arg not in named]
+            hit.keywords = [k for k in hit.keywords if k.arg in named] + [ast.keyword(
+                arg=kwdict[hit.func.attr], value=ast.copy_location(ast.Dict(
+                    keys=[ast.copy_location(ast.Constant(value=k.arg), hit) for k in extra], values=[k.value for k in extra]), hit))]
+        hit.args = [ast.copy_location(recv(), hit)] + list(hit.args)
+        hit.func = ast.copy_location(ast.Name(id=h.name, ctx=ast.Load()), hit)
+        sites = [s for s in _sites(fn, h.name, None, None) if s[3] is hit]
+        if len(sites) != 1:
+            return False
+        b_, i_, s_, c_, how, where = sites[0]
+        if not _inline_call(fn, b_, i_, s_, c_, h, how, where):
+            return False
+    else:
+        return False
+    # --- what is left of the object: its attributes ------------------------------------------------------------------------
+    attrs = set(data)
+    for x in ast.walk(fn):
+        if isinstance(x, ast.Attribute) and isinstance(x.value, ast.Name) and x.value.id == name:
+            attrs.add(x.attr)
+    if attrs & set(meths) or any(f'{name}__{a}' in used for a in attrs):
+        return False
+    parents = {}
+    for p in ast.walk(fn):
+        for c in ast.iter_child_nodes(p):
+            parents[id(c)] = p
+    for x in ast.walk(fn):
+        if isinstance(x, ast.Name) and x.id == name:
+            p = parents.get(id(x))
+            if not (isinstance(p, ast.Attribute) and p.value is x):
+                return False
+            q = p
+            while q is not None and q is not fn:
+                q = parents.get(id(q))
+                if isinstance(q, (ast.FunctionDef, ast.AsyncFunctionDef, ast.Lambda, ast.ClassDef)) and q is not fn:
+                    return False
+    # an attribute that is read must have been given a value by the constructor (else the read is an AttributeError
+    # that locals would turn into something else)
+    given_attrs = set()
+    for x in ast.walk(fn):
+        if isinstance(x, ast.Attribute) and isinstance(x.value, ast.Name) and x.value.id == name and isinstance(x.ctx, ast.Store):
+            given_attrs.add(x.attr)
+    if any(isinstance(x, ast.Attribute) and isinstance(x.value, ast.Name) and x.value.id == name
+           and x.attr not in given_attrs for x in ast.walk(fn)):
+        return False
+
+    class _ToLocal(ast.NodeTransformer):
+        def visit_Attribute(self, n):
+            if isinstance(n.value, ast.Name) and n.value.id == name:
+                return ast.copy_location(ast.Name(id=f'{name}__{n.attr}', ctx=n.ctx), n)
+            self.generic_visit(n)
+            return n
+    _ToLocal().visit(fn)
+    return True
+
+
+def _reaches_index(prog, m, fi, depth: int = 0, seen=None):
+    """what of the function's surroundings ends up in the index variables: {('attr', a)} for `self.a`, {('param', p)},
+    over the statements of the function and - through the arguments it hands on - of the functions of the module it
+    calls.  A backward slice on names (every binding of a name counts), not a proof; it only selects which state the
+    shared-state rule looks at."""
+    seen = seen if seen is not None else set()
+    if id(fi.node) in seen or depth > 3:
+        return set()
+    seen = seen | {id(fi.node)}
+    me = fi.params[0] if fi.cls is not None and fi.params and not any(
+        norm(d) in ('staticmethod', 'classmethod') for d in fi.node.decorator_list) else None
+    roots: list = []
+    for vs in _index_writers(prog, fi).values():
+        roots += [r.e for _, r in vs]
+    for c in calls_in(fi.node):
+        callee = _module_callee(prog, m, fi, c)
+        if callee is None:
+            continue
+        sub = _reaches_index(prog, m, callee, depth + 1, seen)
+        if not sub:
+            continue
+        bound = _bind_params(callee, c, Ref(c, fi))
+        for kind, x in sub:
+            if kind == 'param' and bound and x in bound:
+                roots.append(bound[x].e)
+            elif kind == 'attr' and me is not None and isinstance(c.func, ast.Attribute) and norm(c.func.value) == me \
+                    and callee.cls is fi.cls:
+                roots.append(ast.Attribute(value=ast.Name(id=me, ctx=ast.Load()), attr=x, ctx=ast.Load()))
+    out, names, work = set(), set(), list(roots)
+    while work:
+        e = work.pop()
+        for x in ast.walk(e):
+            if isinstance(x, ast.Attribute) and isinstance(x.value, ast.Name) and x.value.id == me:
+                out.add(('attr', x.attr))
+            elif isinstance(x, ast.Name) and x.id not in names and x.id != me:
+                names.add(x.id)
+                if x.id in fi.params:
+                    out.add(('param', x.id))
+                for t, st, how in stores_to(fi.node):
+                    if isinstance(t, ast.Name) and t.id == x.id:
+                        v = getattr(st, 'iter', None) if how == 'for' else getattr(st, 'value', None)
+                        if v is not None:
+                            work.append(v)
+                for y in ast.walk(fi.node):
+                    if isinstance(y, ast.comprehension) and any(isinstance(z, ast.Name) and z.id == x.id for z in ast.walk(y.target)):
+                        work.append(y.iter)
+                    # grown in place: `x.append(e)` / `x.extend(e)`
+                    if isinstance(y, ast.Call) and isinstance(y.func, ast.Attribute) and y.func.attr in MUTATING_METHODS \
+                            and isinstance(y.func.value, ast.Name) and y.func.value.id == x.id:
+                        work += list(y.args)
+    return out
+
+
+def _module_callee(prog, m, fi, c: ast.Call):
+    """the function of the module a call goes to: a module-level function by name, a method of the own class through
+    the receiver, `K.m(..)`"""
+    f = c.func
+    if isinstance(f, ast.Name):
+        return m.functions.get(f.id)
+    if isinstance(f, ast.Attribute) and isinstance(f.value, ast.Name):
+        if fi.cls is not None and fi.params and f.value.id == fi.params[0]:
+            return fi.cls.find_method(f.attr)
+        k = m.classes.get(f.value.id)
+        if k is not None:
+            return k.find_method(f.attr)
+    return None
+
+
+_SHARED_CONTROL = '''
+class B:
+    ids: list = []
+    n: int = 0
+    def add_part(self, g):
+        self.ids += list(g.variables['flight_id'][:])
+        self.n += 1
+class G:
+    def __init__(self):
+        self.ids = []
+    ids: list = []
+    def add_part(self, g):
+        self.ids.extend(g.variables['flight_id'][:])
+'''
+
+
+def rule_call_local_state(ctx, m):
+    """R8: the table a writer stores is made of what this call collected.  A class of the module whose methods put
+    something of the instance into the index variables (directly, or through the functions they hand it to) keeps that
+    state per instance: a container made once in the class body and grown in place through `self` is one object for
+    every instance of the process, so the second table written also holds the entries of the first."""
+    prog = ctx.prog
+    ctl = ast.parse(_SHARED_CONTROL)
+    got = {c.name: sorted({a for a, *_ in shared_state_mutations(c)}) for c in ctl.body}
+    ctx.control('C08-R8', got == {'B': ['ids'], 'G': []}, 'class-level list grown through self / list of the instance')
+    for cname, ci in m.classes.items():
+        if ci.module is not m:
+            continue
+        muts = shared_state_mutations(ci.node)
+        writes = any(_index_writers(prog, fi) for fi in ci.methods.values())
+        if not muts and not writes:
+            continue
+        reach = set()
+        for fi in ci.methods.values():
+            reach |= {x for k, x in _reaches_index(prog, m, fi) if k == 'attr'}
+        bad = [t for t in muts if t[0] in reach]
+        # an instance may be given its own container from outside (a factory: `b = cls(); b.ids = []`): not decided here
+        elsewhere = {t.attr for x in ast.walk(m.tree) if isinstance(x, (ast.Assign, ast.AnnAssign)) and getattr(x, 'value', None)
+                     is not None for t in (x.targets if isinstance(x, ast.Assign) else [x.target])
+                     for t in ([t] if not isinstance(t, (ast.Tuple, ast.List)) else t.elts) if isinstance(t, ast.Attribute)
+                     and (norm(t.value) not in ('self', 'cls') or any(a is ci.node for a in ancestors(t)))}
+        if any(t[0] in elsewhere for t in bad):
+            ctx.note(f'C08-R8: {cname}: ' + ', '.join(sorted({t[0] for t in bad if t[0] in elsewhere}))
+                     + ' also assigned through an object somewhere in the module; sharing not decided')
+            bad = [t for t in bad if t[0] not in elsewhere]
+        for attr, decl, node, fn in bad:
+            fi = ci.methods.get(fn.name)
+            ctx.ob('C08-R8', fi if fi is not None else (m.relpath, f'{cname}.{fn.name}'),
+                   f'{norm(node)[:70]} (declared `{norm(decl)[:50]}` in the class body)', False,
+                   f'`{attr}` is made once, when class {cname} is created, and {fn.name} grows it in place through the instance; no '
+                   f'constructor gives the instance a container of its own, so every {cname} of the process shares it - and '
+                   f'what it holds is stored into the index variables: the index written by a later call also contains the '
+                   f'(position, identifier) entries collected by the earlier ones, so a look-up in that store finds identifiers '
+                   f'that were never added to it (wrong trajectory or IndexError instead of None)',
+                   line=getattr(node, 'lineno', fn.lineno))
+        if not bad and reach:
+            ctx.ob('C08-R8', (m.relpath, cname), f'state that reaches the index variables ({", ".join(sorted(reach))[:60]}) is per instance',
+                   True, 'no container made in the class body is grown in place on the way into the index', line=ci.node.lineno)
+
+
 def run(ctx):
     m = ctx.prog.module(STORE)
+    rule_call_local_state(ctx, m)
+    # helper objects that hold the state of a writer are that state in locals (the rules below read the functions so)
+    for fi in list(m.functions.values()):
+        if fi.module is m:
+            dissolve_local_objects(ctx.prog, m, fi)
     rule_stale(ctx, m)
     rule_fresh(ctx, m)
     rule_table_knowledge(ctx, m)
